@@ -20,7 +20,9 @@ BACKFILL_C01 = ("backfill-wrote-store", "backfill-forwarded-not-served")
 
 # the RPC layer alone, for C16 ("returned intact by every later lookup" - the public RPC is such a lookup): same harness and
 # driver; C16 reports only the clauses that say a stored VAA is not, or not byte-exactly, returned
-RPC_C16 = ("rpc-get-lost", "rpc-get-wrong-bytes")
+# (the batch lookup answers entry by entry: `rpc-batch-wrong-bytes` = the entry labelled s carries bytes that differ from the VAA stored
+# under s, `rpc-batch-phantom` = bytes for an identifier nothing was ever stored under, `rpc-batch-lost` = a stored, requested VAA is not returned)
+RPC_C16 = ("rpc-get-lost", "rpc-get-wrong-bytes", "rpc-batch-wrong-bytes", "rpc-batch-phantom", "rpc-batch-lost")
 
 
 def run_rpc_for(ctx, clauses):
@@ -97,12 +99,15 @@ def run(ctx):
         "addresses (random, one-byte variants, the governance emitter) and sequences 0..3-14, then interleaves StoreSignedVAA "
         "(overwrites, unsigned VAA -> panic, empty payload), GetSignedVAABytes on stored and look-alike ids, FindEmitterSequenceGap "
         "and GetGovernanceVAABatch, and ends with a sweep of every stream / every stored id; deterministic written-out scenarios "
-        "(targets 2,25,255 etc.); cases with sequences up to 2^64-1 (no gap query); cases with entries written straight into badger "
+        "(targets 2,25,255 etc.); streams holding a stored VAA vaa.Unmarshal rejects (empty payload, version 0 / 2) as lowest / middle / highest / "
+        "only sequence, overwritten either way (a gap report given without an error must still be the stream's); cases with sequences up to 2^64-1 (no gap query); cases with entries written straight into badger "
         "to reach the error returns; the key functions on a grid of boundary ids; the same through PublicrpcServer.GetSignedVAA / "
         "GetNonGovernanceVAABatch / GetGovernanceVAABatch (valid, upper-case, short, long, non-hex addresses, out-of-range enum "
-        "numbers, batch sizes 0..31, nil message id) and through nodePrivilegedService.FindMissingMessages - plain, and with RpcBackfill "
+        "numbers, batch sizes 0..31, nil message id; at the end of every case each stream is asked for ALL its sequences - stored ones and "
+        "holes - in batches of 2..20, ascending, descending, shuffled, and in pairs stored/hole, each entry judged on its own) and through nodePrivilegedService.FindMissingMessages - plain, and with RpcBackfill "
         "against two fake public-RPC nodes (plus an unreachable one) scripted per missing sequence: the VAA of that id, arbitrary bytes, "
-        "no vaaBytes field, undecodable JSON / base64, 404, 500 / 403; compared: requests made, what reached the processor's inbound "
+        "no vaaBytes field, undecodable JSON / base64, 404, 5xx / 429 / 4xx (PRNG-placed, and written out: the first / a middle / the last / two / "
+        "every missing sequence of a batch of seven failing while the others are served or declined); compared: requests made, what reached the processor's inbound "
         "channel, the reply, and the plain report right after (the admin service never writes the store). An evaluation = one "
         "operation line; distinct_nontrivial = operations on which model and implementation agreed and the Spec (answer judged "
         "against lastStored / specGap(streamSeqs) / specGov of the implementation's own history) held")
@@ -120,7 +125,8 @@ def run(ctx):
         "on the unrepaired tree the Spec clauses gap-not-stream-exact / gap-error / fmm-not-stream-exact fire with a concrete store",
         "gap queries are specified for streams whose stored VAAs all decode (non-empty payload, <= 255 signatures) and whose greatest sequence is "
         "below 2^64-1 (the Go loop `for i := first; i <= last; i++` does not terminate at 2^64-1); a stream containing an empty-payload VAA makes "
-        "the gap query return an error (Marshal writes what Unmarshal rejects — C13's finding), which the model reproduces and the Spec leaves unjudged",
+        "the gap query return an error (Marshal writes what Unmarshal rejects — C13's finding), which the model reproduces (C12.gap_err_of_undecodable) and "
+        "the Spec accepts: an error makes no statement; a report given WITHOUT an error is judged against specGap like any other",
         "first = 0 and, for an empty stream, missing = [0], last = 0 are taken as the specification because the repo's TestFindEmitterSequenceGap pins first = 0",
         "RPC requests whose chain enum number is outside 0..65535 are narrowed by the server (65538 -> 2); such a number names no VAA identifier, "
         "so the Spec is silent there and only model = implementation is checked (scope note)",
